@@ -33,7 +33,7 @@ def stages(tier, seed, bins):
             c["q"] = max(1, min(D, rnd.choice([td, td + 1])))
         # the same data measured in another unit (widths / kernel parameters converted with it): every clause is scale free
         if rnd.random() < 0.15:
-            c["xscale"] = rnd.choice([1e-6, 1e-3, 1e3, 1e6])
+            c["xscale"] = rnd.choice([1e-12, 1e-9, 1e-6, 1e-3, 1e3, 1e6, 1e9])
         cases.append(c)
     # sizes beyond any "small problem" switch an implementation may have (size-gated code paths, e.g. `if (N > 1000)`)
     for N in ([1100, 3000] if tier != "thorough" else [1001, 1100, 3000, 10000]):
